@@ -4,6 +4,7 @@ pub mod c05;
 pub mod c07;
 pub mod c08;
 pub mod c09;
+pub mod c15;
 
 use crate::obs::Ctx;
 
@@ -13,6 +14,7 @@ pub fn run(check: &str, ctx: &mut Ctx) -> bool {
         "c07" => c07::run(ctx),
         "c08" => c08::run(ctx),
         "c09" => c09::run(ctx),
+        "c15" => c15::run(ctx),
         _ => return false,
     }
     true
